@@ -34,6 +34,37 @@ type seqItem struct {
 	// 0; 2: a developer field of size 0; 3: the developer flag with no
 	// developer fields)
 	Tail int `json:"zero_size_tail,omitempty"`
+	// Extra: besides the marker the message carries up to six more of its
+	// unsigned scalar fields with small valid values (counts, indexes,
+	// enum-like values), as real messages do; where a message is put must
+	// not depend on them
+	Extra bool `json:"extra_fields,omitempty"`
+}
+
+// extras returns the additional fields of message g an item with Extra
+// carries: unsigned non-array native scalars other than the marker that play
+// no role in component expansion, lowest field numbers first.
+func extras(g uint16, mk *fitmodel.FieldInfo) []*fitmodel.FieldInfo {
+	mi := prof.Table().Msgs[g]
+	if mi == nil || g == 0 {
+		return nil
+	}
+	var out []*fitmodel.FieldInfo
+	for _, n := range prof.FieldNums(g) {
+		fi := mi.Fields[n]
+		bt := fitmodel.MustBase(fi.Base)
+		if fi.Kind != fitmodel.KindNative || fi.Array || !bt.Integer || bt.Signed || fi.SIndex < 0 || fi.SIndex >= mi.NFields || n >= 250 {
+			continue
+		}
+		if (mk != nil && fi.Num == mk.Num) || (fitmodel.ExpandsComponents(g) && dstOrSrc[fi.Name]) {
+			continue
+		}
+		out = append(out, fi)
+		if len(out) == 6 {
+			break
+		}
+	}
+	return out
 }
 
 type seqCase struct {
@@ -94,16 +125,17 @@ func build(c seqCase) *fitmodel.Stream {
 		fitmodel.Rec{Local: 0, Raw: []byte{byte(c.FileType)}},
 	)
 	type key struct {
-		g    uint16
-		be   bool
-		tail int
+		g     uint16
+		be    bool
+		tail  int
+		extra bool
 	}
 	var slots [16]*key
 	slots[0] = nil // force redefinition when local 0 is reused
 	for _, it := range c.Items {
 		l := it.Local & 0x0F
 		mk := marker(it.Global)
-		if slots[l] == nil || *slots[l] != (key{it.Global, it.BE, it.Tail}) {
+		if slots[l] == nil || *slots[l] != (key{it.Global, it.BE, it.Tail, it.Extra}) {
 			def := fitmodel.Rec{IsDef: true, Local: l, Global: it.Global, BigEndian: it.BE}
 			if it.Global == 0 {
 				def.Fields = append(def.Fields, fitmodel.FieldDef{Num: 0, Size: 1, Base: 0})
@@ -117,6 +149,11 @@ func build(c seqCase) *fitmodel.Stream {
 					def.Fields = append(def.Fields, fitmodel.FieldDef{Num: 2, Size: 200, Base: 0x0D}, fitmodel.FieldDef{Num: 3, Size: 120, Base: 0x0D})
 				}
 			}
+			if it.Extra {
+				for _, fi := range extras(it.Global, mk) {
+					def.Fields = append(def.Fields, fitmodel.FieldDef{Num: fi.Num, Size: byte(fitmodel.MustBase(fi.Base).Size), Base: fi.Base})
+				}
+			}
 			switch it.Tail {
 			case 1:
 				def.Fields = append(def.Fields, fitmodel.FieldDef{Num: 249, Size: 0, Base: 0x07})
@@ -127,7 +164,7 @@ func build(c seqCase) *fitmodel.Stream {
 				def.HasDev = true
 			}
 			s.Recs = append(s.Recs, def)
-			slots[l] = &key{it.Global, it.BE, it.Tail}
+			slots[l] = &key{it.Global, it.BE, it.Tail, it.Extra}
 		}
 		r := fitmodel.Rec{Local: l}
 		if it.Compressed && l <= 3 {
@@ -148,6 +185,12 @@ func build(c seqCase) *fitmodel.Stream {
 				for i := 0; i < 320; i++ {
 					r.Raw = append(r.Raw, byte(i%4))
 				}
+			}
+		}
+		if it.Extra {
+			for _, fi := range extras(it.Global, mk) {
+				bt := fitmodel.MustBase(fi.Base)
+				r.Raw = append(r.Raw, fitmodel.PutWireUint(uint64(1+(it.Tag*7+uint32(fi.Num))%40), bt.Size, it.BE)...)
 			}
 		}
 		s.Recs = append(s.Recs, r)
@@ -321,6 +364,7 @@ func drawSeq(d gen.D) seqCase {
 			it.Compressed = true
 			it.TimeOffset = byte(d.Int(0, 31, "toff"))
 		}
+		it.Extra = d.Int(0, 2, "extra") == 0
 		if tailPct := map[bool]int{false: 10, true: 40}[i == n-1]; d.Int(0, 99, "tail") < tailPct {
 			it.Tail = d.Int(1, 3, "tailkind")
 		}
